@@ -314,6 +314,30 @@ theorem sim_step {t : Track} {s : State} (h : Sim t s) (op : Op) :
         exact h
       · exact h
     | _ => exact h
+  | phc ds v m p q =>
+    simp only [step, trackStep]
+    have h1 : (PhcRes.matched true = phcMatch ds v m p q → q = p) := by
+      intro e
+      unfold phcMatch at e
+      cases m <;> simp at e
+      all_goals (split at e <;> simp at e)
+      exact e
+    have h2 : (m = .none → ds.contains v = true → phcMatch ds v m p q = .matched (decide (q = p))) := by
+      intro hm hc; subst hm; simp only [phcMatch, hc, ↓reduceIte]
+    have e1 : (decide (phcMatch ds v m p q = PhcRes.matched true) && decide (q ≠ p)) = false := by
+      by_cases hr : phcMatch ds v m p q = PhcRes.matched true
+      · simp [hr, h1 hr.symm]
+      · simp [hr]
+    have e2 : (decide (m = Mangle.none) && ds.contains v &&
+        decide (phcMatch ds v m p q ≠ PhcRes.matched (decide (q = p)))) = false := by
+      by_cases hm : m = .none
+      · by_cases hc : ds.contains v = true
+        · simp [h2 hm hc]
+        · have : ds.contains v = false := by simpa using hc
+          simp only [this, Bool.and_false, Bool.false_and]
+      · simp [hm]
+    simp only [e1, e2, Bool.false_eq_true, ↓reduceIte]
+    exact h
 
 theorem track_run (ops : List Op) {t : Track} {s : State} (h : Sim t s) :
     ((run s ops).foldl trackStep t).ok = true := by
